@@ -496,8 +496,7 @@ def handle_violations(machine, prop, merged, shrink_budget=90.0, out=sys.stdout)
     """Shrink, write, replay, match against known findings. Returns (n_unlisted, n_known, harness_problem)."""
     known = load_known()
     reported_known = {}
-    unlisted = []
-    seen_classes = set()
+    instances = {}
     for idx, seed, plan, r in merged["violations"]:
         for v in r["violations"]:
             if v["property"] != prop:
@@ -507,26 +506,40 @@ def handle_violations(machine, prop, merged, shrink_budget=90.0, out=sys.stdout)
                 reported_known.setdefault(e["id"], [e, 0])[1] += 1
                 continue
             key = (v["clause"], v["class"], v.get("site"), tuple(v.get("tags", ())))
-            if key in seen_classes:
-                continue
-            seen_classes.add(key)
-            unlisted.append((idx, seed, plan, r, v))
+            inst = instances.setdefault(key, [])
+            if len(inst) < 4:
+                inst.append((idx, seed, plan, r, v))
     for eid, (e, n) in sorted(reported_known.items()):
         print(f"KNOWN-FINDING: property={prop} {e['text']} [{eid}; {n} occurrence(s) this run]", file=out)
     harness_problem = False
     n_unlisted = 0
-    for idx, seed, plan, r, v in unlisted[:5]:
-        # (1) re-execute
-        try:
-            res2 = run_once(machine, plan, prop)
-        except HarnessError as e:
-            print(f"HARNESS-ERROR: re-execution of seed {seed} failed: {e}", file=out)
-            harness_problem = True
+    for key, inst in list(instances.items())[:5]:
+        # (1) re-execute; runs whose swarm uses real (unseeded) library entropy cannot be expected to replay, so
+        # instances from the seeded population are preferred and a real-entropy instance that does not come back
+        # is skipped, not reported
+        inst.sort(key=lambda t: t[2]["swarm"].get("entropy") == "real")
+        chosen = None
+        for idx, seed, plan, r, v in inst:
+            real = plan["swarm"].get("entropy") == "real"
+            try:
+                res2 = run_once(machine, plan, prop)
+            except HarnessError as e:
+                print(f"HARNESS-ERROR: re-execution of seed {seed} failed: {e}", file=out)
+                harness_problem = True
+                continue
+            if same_violation(res2, v) is None:
+                if real:
+                    print(f"note: property={prop} seed={seed} clause={v['clause']}: seen once in a run using real library "
+                          f"entropy, not reproducible by construction; looking for a seeded instance", file=out)
+                    continue
+                print(f"HARNESS-NONDETERMINISM: property={prop} seed={seed} clause={v['clause']} did not reproduce", file=out)
+                harness_problem = True
+                continue
+            chosen = (idx, seed, plan, r, v)
+            break
+        if chosen is None:
             continue
-        if same_violation(res2, v) is None:
-            print(f"HARNESS-NONDETERMINISM: property={prop} seed={seed} clause={v['clause']} did not reproduce", file=out)
-            harness_problem = True
-            continue
+        idx, seed, plan, r, v = chosen
         # (2) shrink
         small, tried = shrink(machine, plan, prop, v, budget_s=shrink_budget)
         res3 = run_once(machine, small, prop)
